@@ -213,6 +213,21 @@ theorem insertUnit_wstep {w w' : World} {u s : Nat} {i o : Option PortRef}
     split at hx
     · exact (on_replace_wstep hx).weaken (fun hc _ => ⟨hc.1, hc.2 _ rfl⟩)
     · cases hx
+  have htail : ∀ (w2 : World) (b : Bool) w', (if b = true then w2.on .o (·.append u s)
+      else Except.ok w2) = .ok w' → WStep (s < w2.nS ∧ u < w2.nU) w2 w' := by
+    intro w2 b w' hx
+    split at hx
+    · exact (on_wstep (fun _ => append_step) hx).weaken (fun hc _ => ⟨by simpa using hc.1, hc.2⟩)
+    · cases hx; exact (WStep.refl _).weaken (fun _ _ => trivial)
+  have comb : ∀ (x : World × Bool) (w2 w' : World),
+      WStep (s < x.1.nS ∧ u < x.1.nU ∧ (∀ v, source = some v → v < x.1.nU) ∧
+        (∀ a, i = some (.strm a) → a < x.1.nS)) x.1 w2 →
+      (if x.2 = true then w2.on .o (·.append u s) else Except.ok w2) = .ok w' →
+      WStep (s < x.1.nS ∧ u < x.1.nU ∧ (∀ v, source = some v → v < x.1.nU) ∧
+        (∀ a, i = some (.strm a) → a < x.1.nS)) x.1 w' := by
+    intro x w2 w' F ht
+    exact F.trans (htail w2 x.2 w' ht) (fun hc _ => hc)
+      (fun hc _ _ => ⟨Nat.lt_of_lt_of_le hc.1 F.ext.nS, Nat.lt_of_lt_of_le hc.2.1 F.ext.nU⟩)
   have hjp : ∀ x w', jp x = .ok w' →
       WStep (s < x.1.nS ∧ u < x.1.nU ∧ (∀ v, source = some v → v < x.1.nU) ∧
         (∀ a, i = some (.strm a) → a < x.1.nS)) x.1 w' := by
@@ -223,19 +238,27 @@ theorem insertUnit_wstep {w w' : World} {u s : Nat} {i o : Option PortRef}
       · split at hx
         · split at hx
           · rename_i a ha
-            exact (hrep _ _ _ _ _ _ hx).weaken (fun hc hG => ⟨hG.ins_lt (getElem?_mem' ha), hc.2.2.1⟩)
-          · cases hx
-        · cases hx
-      · exact (on_wstep (fun _ => append_step) hx).weaken (fun hc _ => ⟨by simpa using hc.1, hc.2.1⟩)
+            obtain ⟨w2, hx, ht⟩ := bind_ok.mp hx
+            exact comb x w2 w' ((hrep _ _ _ _ _ _ hx).weaken
+              (fun hc hG => ⟨hG.ins_lt (getElem?_mem' ha), hc.2.2.1⟩)) ht
+          · obtain ⟨w2, hx, ht⟩ := bind_ok.mp hx; cases hx
+        · obtain ⟨w2, hx, ht⟩ := bind_ok.mp hx; cases hx
+      · obtain ⟨w2, hx, ht⟩ := bind_ok.mp hx
+        exact comb x w2 w' ((on_wstep (fun _ => append_step) hx).weaken
+          (fun hc _ => ⟨by simpa using hc.1, hc.2.1⟩)) ht
     · split at hx
-      · cases hx
+      · obtain ⟨w2, hx, ht⟩ := bind_ok.mp hx; cases hx
       · split at hx
-        · cases hx
-        · exact (hrep _ _ _ _ _ _ hx).weaken (fun hc hG => ⟨hc.2.2.2 _ rfl, hc.2.2.1⟩)
+        · obtain ⟨w2, hx, ht⟩ := bind_ok.mp hx; cases hx
+        · obtain ⟨w2, hx, ht⟩ := bind_ok.mp hx
+          exact comb x w2 w' ((hrep _ _ _ _ _ _ hx).weaken
+            (fun hc hG => ⟨hc.2.2.2 _ rfl, hc.2.2.1⟩)) ht
     · split at hx
       · rename_i a ha
-        exact (hrep _ _ _ _ _ _ hx).weaken (fun hc hG => ⟨hG.outs_lt (getElem?_mem' ha), hc.2.2.1⟩)
-      · cases hx
+        obtain ⟨w2, hx, ht⟩ := bind_ok.mp hx
+        exact comb x w2 w' ((hrep _ _ _ _ _ _ hx).weaken
+          (fun hc hG => ⟨hG.outs_lt (getElem?_mem' ha), hc.2.2.1⟩)) ht
+      · obtain ⟨w2, hx, ht⟩ := bind_ok.mp hx; cases hx
   clear_value jp replaceIn
   -- common continuation
   have fin : ∀ (w1 : World) (added : Bool) (A : Prop), WStep A w w1 →
@@ -259,9 +282,7 @@ theorem insertUnit_wstep {w w' : World} {u s : Nat} {i o : Option PortRef}
             (fun hc hG => ⟨hG.outs_lt (getElem?_mem' ho1), fun x hx => hG.ins_loc_lt hx⟩) h
         · cases h
       · cases h
-    · obtain ⟨w1, h1, h⟩ := bind_ok.mp h
-      exact fin w1 true _ (on_wstep (fun _ => append_step) h1)
-        (fun hc _ => ⟨by simpa using hc.1, hc.2.1⟩) h
+    · exact fin w true _ (WStep.refl w) (fun _ _ => trivial) h
   · split at h
     · cases h
     · split at h
